@@ -45,6 +45,21 @@ class P(Prop):
             c1 = cg.tx.relabel(c1, mp)
             for b in mp.values():
                 c1.set_output(b)
+        if c1 is not None and rng.random() < 0.15:
+            # an input of c0 that is an internal gate of c1 (computed there from two fresh inputs): not a shared
+            # startpoint, so it must stay an independent free signal of copy 0
+            ins1 = [i for i in sorted(c1.inputs()) if c1.fanout(i)]
+            if ins1:
+                a = rng.choice(ins1)
+                try:
+                    c1 = c1.copy()
+                    c1.add("zp", "input")
+                    c1.add("zq", "input")
+                    c1.set_type(a, rng.choice(["or", "and", "xor"]))
+                    c1.connect(["zp", "zq"], a)
+                    kind = kind + "+input-as-gate"
+                except Exception:  # noqa: BLE001
+                    pass
         cc1 = c1 if c1 is not None else c0
         sp_all = sorted(c0.startpoints() & cc1.startpoints())
         ep_all = sorted(c0.endpoints() & cc1.endpoints())
